@@ -7,16 +7,26 @@ TECH = "solver-based bounded checking: symbolic execution of the real Python fun
 NOTE = ("Trusted base: the symx engine in /verif/vf (proxies, container models, sre interpreter; self-validated against CPython on every run and by concolic replay of explored paths), z3 5.1, "
         "md5 abstracted as an uninterpreted function, CPython/stdlib semantics outside the instrumented modules. Bounds are printed in the evidence file.")
 CLAIMED = {
+ "C01": ("3/C01", "All 2^32 / 2^128 address pairs and all hash functions: the real anonymize() is summarised path by path and the prefix-preservation assertion is discharged by z3 per configuration of a stated family; joint runs of two arbitrary requests on one shared instance (exhaustive common-prefix split), also on a memo of arbitrary size. Bounded in the configuration family only."),
  "C02": ("3/C02", "All addresses and all hash functions: real anonymize/deanonymize composed on fresh instances (both orders), on an instance warmed by an arbitrary earlier request, and through the real _anonymize_match forward+undo; assertions discharged by z3 on every explored path. Bounded in the configuration family and warm-up depth."),
- "C03": ("3/C03", "Every answer of a history-laden real instance is compared in-path with a fresh instance's answer: 2 arbitrary requests (all directions, all addresses via an exhaustive common-prefix split) and deep histories inside a symbolic bit window; all hash functions. Bounded in history depth and configurations."),
+ "C03": ("3/C03", "Every answer of a history-laden real instance is compared in-path with a fresh instance's answer: 2 arbitrary requests (all directions, all addresses via an exhaustive common-prefix split), deep histories inside a symbolic bit window, and a memo of arbitrary reported size; all hash functions. Bounded in history depth and configurations."),
  "C04": ("3/C04", "Summary of the real anonymize() per configuration; membership in every configured prefix, host-bit preservation and independence discharged by z3 for all addresses and hash functions. Bounded in the configuration family."),
  "C05": ("3/C05", "Real _is_mask vs an independent 66-constant specification on all 2^32 values; kept-verbatim / replaced-by-image through the real _anonymize_match and no-collision for preserved networks, for all addresses and hash functions. Bounded in the configuration family."),
+ "C06": ("3/C06", "Unbounded-length language equivalence (z3 regular expressions translated from the live pattern objects) of the IPv4 body and the hex-only IPv6 alternatives with reference grammars, plus token-exactness premises; bounded priority-exact symbolic runs of the real anonymize_ip_addr on token shapes with symbolic digits and contexts against an independent scanner."),
+ "C07": ("3/C07", "Relational check on the real replace_matching_item / _anonymize_value: per explored path the output may not mention secret symbols, and two secrets of the same independent format cell may not lead to different outputs (z3 query per pair of result groups); line forms generated from the live pattern list. Bounded in secret length and form family."),
+ "C08": ("3/C08", "Histories of the shared lookup with enumerated equality patterns among symbolic secrets (values, lines, two secrets on one line, $9$ encodings of one plaintext): equal secrets <=> equal replacements, decided per path. Bounded in history length and secret length."),
+ "C09": ("3/C09", "Per explored path of the real _anonymize_value the (path-constant) replacement is judged by independent decoders and a z3 query shows every input of the path has one of the replacement's formats; enclosing text and line context checked on generated line forms. Bounded in secret length and forms."),
+ "C10": ("3/C10", "Real SensitiveWordAnonymizer on all short Latin-1 lines and word+context shapes, every iteration order of the word set, pseudonyms as uninterpreted hash digits: a z3 query per path shows no listed word occurs in the output outside reserved tokens; reserved tokens / secrets kept. Bounded in line length and word lists."),
  "C11": ("3/C11", "Real _generate_as_number_replacement on all decimal strings up to 10 digits with the digest a free 128-bit value (block membership, rejection above 2^32-1, stability); real anonymize_as_numbers with its generated pattern on symbolic lines against an independent digit-run scanner. Bounded in line length and number lists."),
+ "C12": ("3/C12", "Real FileAnonymizer.anonymize_io under all 16 feature subsets with symbolic whitespace: one write per line, leading/trailing whitespace and terminator equal (z3 query), locality (line alone vs after another), benign vocabulary lines verbatim up to permitted collapsing. Bounded in line count and vocabulary."),
+ "C13": ("3/C13", "Self-composition: the same construction+run executed twice inside one symbolic execution with independent environment symbols (set iteration orders, random, string hash seed, passlib salt), earlier anonymizers with symbolic reserved words, the no-salt contract; equality of outputs decided by z3. Bounded in the input families."),
+ "C14": ("3/C14", "Exceptions are observations: every feasible path of the real stages on wild slots of all generated line forms, malformed hash shapes, enclosing runs, near-address tokens and arbitrary short lines must return; the replacement-template semantics of re.sub and passlib's argument checks are part of the executed code. Bounded in slot lengths and shapes."),
+ "C15": ("3/C15", "Differential: real FileAnonymizer with every feature subset (and undo) vs the chain of single-feature FileAnonymizers in the fixed order, same salt/options (distinct v4/v6 host bits), symbolic secret, concrete addresses/words/AS numbers under the real md5; output equality decided by z3; two streams on one object. Bounded in inputs and option sets."),
  "C17": ("3/C17", "Real dump_to_file after two arbitrary requests (exhaustive common-prefix split), both caching paths, seeded full-length entries: completeness, agreement with a fresh instance and uniqueness discharged per path. Bounded in request count and configurations."),
  "C18": ("3/C18", "Real $9$ codec: per-position step lemma over all previous/plaintext characters (covers every length), whole-function round trips for all plaintexts up to a length bound and every Latin-1 salt character, and decrypt on all short strings (only ValueError, only well-formed input accepted)."),
- "C01": ("3/C01", "All 2^32 / 2^128 address pairs and all hash functions: the real anonymize() is summarised path by path and the prefix-preservation assertion is discharged by z3 per configuration of a stated family; plus joint runs on one shared instance. Bounded in the configuration family only."),
+ "C19": ("3/C19", "Real main() below _parse_args executed over the full product of option presence/values derived from the live parser (validation before anything is written, nothing-enabled, documented parameter mapping, private-address equivalence), parser defaults, and host_bits on all 1-3 digit strings via z3. Config-file precedence is outside (configargparse internals)."),
 }
-NA = {}
+NA = {"C16": "the quantifier ranges over directory trees and fault positions of the operating-system layer (os.walk, open, makedirs, decoding): none of that is code that can be executed symbolically; modelling the file system would verify the model and degenerate to enumerating concrete trees. The reachable part (all entry points funnel into anonymize_io; one anonymizer shared by all files) is covered under C15 / C03 and not claimed as C16."}
 ALL = ["C%02d" % i for i in range(1, 20)]
 def main():
     checks = []
